@@ -23,6 +23,8 @@ void splinetable<Alloc>::fit(const ::ndsparse& data,
 	              "DoubleContCont must be a container of DoubleCont values");
 	
 	//Sanity checking
+	if(ndim!=0)
+		throw std::logic_error("splinetable already contains data, cannot fit");
 	if(data.ndim==0 || data.rows==0)
 		throw std::logic_error("Input data must have at least one dimension and one data point");
 	if(data.rows!=weights.size())
@@ -89,15 +91,20 @@ void splinetable<Alloc>::fit(const ::ndsparse& data,
 		                       +") shoulb be less than the number of spline dimensions ("
 		                       +std::to_string(data.ndim)+")");
 	
+	//If anything goes wrong from here on the half built table is discarded
+	try{
+	
 	//Initialize variables
 	ndim=data.ndim;
 	order = allocate<uint32_t>(ndim);
 	std::copy(splineOrder.begin(),splineOrder.end(),order);
 	this->knots = allocate<double_ptr>(ndim);
+	std::fill(this->knots,this->knots+ndim,nullptr);
 	nknots = allocate<uint64_t>(ndim);
 	for(uint32_t i=0; i<ndim; i++)
 		nknots[i]=knots[i].size();
 	extents = allocate<double_ptr>(ndim);
+	extents[0] = nullptr;
 	extents[0] = allocate<double>(2*ndim);
 	naxes = allocate<uint64_t>(ndim);
 	for(uint32_t i=0; i<ndim; i++)
@@ -168,6 +175,11 @@ void splinetable<Alloc>::fit(const ::ndsparse& data,
 	cholmod_l_finish(&cholmod_state);
 	if(result!=0)
 		throw std::runtime_error("GLAM fit failed");
+	
+	}catch(...){
+		release_storage();
+		throw;
+	}
 }
 	
 } //namespace photospline
